@@ -236,24 +236,41 @@ def run(ctx):
     g_even = sh.gate_edges(lambda atom, pol: sh.N(atom)['k'] == 'BinaryOperator' and sh.N(atom).get('op') == '!=' and any(sh.N(j)['k'] == 'BinaryOperator' and sh.N(j).get('op') == '%' and sh.const_value(sh.N(j)['ch'][1]) == 2 for j in sh.walk(atom)) and pol is False)
     news = [i for i in sh.all_nodes() if sh.N(i)['k'] == 'CXXNewExpr']
     ctx.check(len(thr) == 2 and any(sh.only_through(t, g_odd) for t in thr) and bool(news) and all(sh.only_through(nw, list(g_even)) for nw in news), R5, 'key::set_hex:odd-length-rejected', 'an odd number of hex digits is accepted', sh.where)
-    # character test of the validation loop, evaluated for every byte
-    ifs = [i for i in sh.walk() if sh.N(i)['k'] == 'IfStmt' and any(sh.N(j)['k'] == 'ContinueStmt' for j in sh.walk(sh.N(i)['then']))]
-    ctx.check(len(ifs) == 1, R5, 'key::set_hex:character-test-found', 'validation loop shape changed', sh.where)
-    if ifs:
-        cond = sh.N(ifs[0])['cond']
-        cvar = [r for r in sh.subtree_refs(cond) if r.startswith('v:')]
+    # the whole decoder, evaluated abstractly on a two-character key with one character ranging over all byte values (each position):
+    # it throws exactly when that character is not a hexadecimal digit, otherwise the stored byte is 16*high + low
+    K = CR + '::key::'
+    HEXV = {c: int(chr(c), 16) for c in range(256) if chr(c) in '0123456789abcdefABCDEF'}
+    for pos in (0, 1):
         bad = []
-        for lo in range(256):
-            it = absint.Interp(P, [])
-            v = lo - 256 if lo > 127 else lo
-            res = it.rvalue(sh, cond, {cvar[0]: Cell(AV.const(v))})
-            acc = bool(res.lo)
-            if acc != (chr(lo) in '0123456789abcdefABCDEF'):
-                bad.append(lo)
-        nxt = [j for j in sh.walk(ifs[0])]
-        lp_ = q.enclosing_loops(sh, ifs[0])
-        after = [t for t in thr if lp_ and sh.contains(lp_[0], t)]
-        ctx.check(not bad and len(after) == 1, R5, 'key::set_hex:accepts-exactly-hex-digits', 'bytes %s are classified wrongly' % [hex(b) for b in bad[:4]], sh.loc(ifs[0]))
+        nb = 0
+        for other in (0x30, 0x66, 0x41):
+            def runh(it, pos=pos, other=other):
+                it.hooks = {K + 'reset': lambda it_, fn_, i_, env_: AV.const(0)}
+                it.fields = {'f:' + K + 'data_': Cell(AV.const(0)), 'f:' + K + 'size_': Cell(AV.const(0))}
+                chars = [AV.const(other), AV.const(other)]
+                chars[pos] = it.inbyte(0)
+                arr = Arr(chars + [AV.const(0)], 'hex')
+                r = it.call_fn(sh, [PV(arr, 0), AV.const(2)])
+                return r, it.fields['f:' + K + 'data_'].v, it.fields['f:' + K + 'size_'].v
+            for (bx, (r, data, size), it) in absint.explore(P, runh, [[(-128, 127)]]):
+                nb += 1
+                lo, hi_ = bx[0]
+                vals = [v & 0xFF for v in range(lo, hi_ + 1)]
+                threw = isinstance(r, tuple) and r and r[0] == 'throw'
+                allhex, nonehex = all(v in HEXV for v in vals), not any(v in HEXV for v in vals)
+                if not (allhex or nonehex) or threw != nonehex:
+                    bad.append(('%02X-%02X' % (min(vals), max(vals)), 'threw' if threw else 'accepted'))
+                    continue
+                if not threw:
+                    okv = isinstance(data, PV) and len(data.arr.elems) == 1 and isinstance(size, AV) and size.is_const() and size.lo == 1
+                    if okv:
+                        e = data.arr.elems[0]
+                        got = set((x & 0xFF) for x in (e.vals if e.vals is not None else range(e.lo, e.hi + 1)))
+                        want = set(((HEXV[v] << 4) + HEXV[other]) if pos == 0 else ((HEXV[other] << 4) + HEXV[v]) for v in vals)
+                        okv = got == want
+                    if not okv:
+                        bad.append(('%02X-%02X' % (min(vals), max(vals)), 'decoded wrongly'))
+        ctx.check(not bad, R5, 'key::set_hex:exact:position-%d' % pos, 'characters %s' % bad[:3], sh.where, detail={'boxes': nb})
 
     # ---------------- R6 CBC chaining state (compiled back-end)
     PA = model.Program(build.extract([REPO + '/src/aes.cpp'], include_re='^/repo/(src|private|cppcms)/'))
